@@ -76,6 +76,56 @@ lexer!(c01_lex_url_l5, hk::lex_url, any_chars, 5, 8);
 // HV: {"name":"c01_lex_url_l6","prop":"C01","tier":"thorough","kernel":"lex_url","bound":"every text of 6 chars (any Unicode scalar)","fns":["harper_core::lexing::url::lex_url"],"cost":10}
 lexer!(c01_lex_url_l6, hk::lex_url, any_chars, 6, 9);
 
+/// Structured URL inputs: a concrete well-formed prefix followed by a few arbitrary characters, so that the
+/// escape / credential sub-lexers (`lex_escaped`, `lex_login`, `is_uchar_plus_string`) are reached at the very end
+/// of the slice they are handed - deeper than the fully symbolic texts above can go.
+fn url_with_tail<const P: usize, const T: usize, const S: usize, const L: usize>(prefix: [char; P], suffix: [char; S]) {
+    let tail: [char; T] = any_chars::<T>();
+    let mut src = ['a'; L];
+    let mut i = 0;
+    while i < P {
+        src[i] = prefix[i];
+        i += 1;
+    }
+    let mut j = 0;
+    while j < T {
+        src[P + j] = tail[j];
+        j += 1;
+    }
+    let mut k = 0;
+    while k < S {
+        src[P + T + k] = suffix[k];
+        k += 1;
+    }
+    let found = hk::lex_url(&src);
+    kani::cover!(matches!(&found, Some(f) if f.next_index == L), "the whole text is one URL");
+    lexer_progress(found, L);
+}
+// HV: {"name": "c01_lex_url_path_tail2", "prop": "C01", "kernel": "lex_url (path escapes at the end of the text)", "bound": "'a://b/' + 2 arbitrary chars (any Unicode scalar)", "fns": ["harper_core::lexing::url::lex_url", "harper_core::lexing::url::lex_escaped", "harper_core::lexing::url::lex_xchar_string"], "cost": 9, "tier": "thorough", "timeout_s": 3000}
+#[kani::proof]
+#[kani::unwind(11)]
+fn c01_lex_url_path_tail2() {
+    url_with_tail::<6, 2, 0, 8>(['a', ':', '/', '/', 'b', '/'], []);
+}
+// (not admitted: no verdict in 900 s) {"name": "c01_lex_url_path_tail3", "prop": "C01", "kernel": "lex_url (path escapes at the end of the text)", "bound": "'a://b/' + 3 arbitrary chars (any Unicode scalar)", "fns": ["harper_core::lexing::url::lex_url", "harper_core::lexing::url::lex_escaped", "harper_core::lexing::url::lex_xchar_string"], "cost": 5}
+#[kani::proof]
+#[kani::unwind(12)]
+fn c01_lex_url_path_tail3() {
+    url_with_tail::<6, 3, 0, 9>(['a', ':', '/', '/', 'b', '/'], []);
+}
+// HV: {"name": "c01_lex_url_login_tail2", "prop": "C01", "kernel": "lex_url (credentials before '@')", "bound": "'a://' + 2 arbitrary chars + '@b' (any Unicode scalar)", "fns": ["harper_core::lexing::url::lex_url", "harper_core::lexing::url::lex_login", "harper_core::lexing::url::is_uchar_plus_string", "harper_core::lexing::url::lex_escaped"], "cost": 9, "tier": "thorough", "timeout_s": 3000}
+#[kani::proof]
+#[kani::unwind(11)]
+fn c01_lex_url_login_tail2() {
+    url_with_tail::<4, 2, 2, 8>(['a', ':', '/', '/'], ['@', 'b']);
+}
+// (not admitted: no verdict in 900 s) {"name": "c01_lex_url_login_tail3", "prop": "C01", "kernel": "lex_url (credentials before '@')", "bound": "'a://' + 3 arbitrary chars + '@b' (any Unicode scalar)", "fns": ["harper_core::lexing::url::lex_url", "harper_core::lexing::url::lex_login", "harper_core::lexing::url::is_uchar_plus_string", "harper_core::lexing::url::lex_escaped"], "cost": 5}
+#[kani::proof]
+#[kani::unwind(12)]
+fn c01_lex_url_login_tail3() {
+    url_with_tail::<4, 3, 2, 9>(['a', ':', '/', '/'], ['@', 'b']);
+}
+
 // lex_hostname_token — any char
 // HV: {"name":"c01_lex_hostname_l2","prop":"C01","kernel":"lex_hostname_token","bound":"every text of 2 chars (any Unicode scalar)","fns":["harper_core::lexing::hostname::lex_hostname_token","harper_core::lexing::hostname::lex_hostname"]}
 lexer!(c01_lex_hostname_l2, hk::lex_hostname_token, any_chars, 2, 6, nocover);
